@@ -29,6 +29,8 @@ import (
 	"verif/harness/hx"
 )
 
+const h2wTrailerBit = uint32(1) << 31
+
 const h2wHoldTimeout = 30 * time.Millisecond
 const h2wCaseTimeout = 20 * time.Second
 
@@ -46,15 +48,35 @@ type h2wGate struct {
 	holding bool
 	over    int // Write calls that overtook the held one
 	pass    chan struct{}
+	// match (clt cases): instead of counting, hold the first Write after arming whose frame satisfies match; only an
+	// overtaking HEADERS frame lets it go on
+	match func(ftype byte, sid uint32) bool
+	held  bool
+}
+
+func h2wFrameHead(bufs []buffer.IoBuffer) (ftype byte, sid uint32, ok bool) {
+	for _, b := range bufs {
+		if b != nil && b.Len() >= 9 {
+			x := b.Bytes()
+			return x[3], (uint32(x[5])<<24 | uint32(x[6])<<16 | uint32(x[7])<<8 | uint32(x[8])) & 0x7fffffff, true
+		}
+	}
+	return 0, 0, false
 }
 
 func h2wNewGate() *h2wGate { return &h2wGate{pass: make(chan struct{}, 1)} }
 
 func (g *h2wGate) Write(bufs ...buffer.IoBuffer) error {
 	g.mu.Lock()
+	ftype, fsid, fok := h2wFrameHead(bufs)
 	if g.armed {
 		g.n++
-		if g.hold != 0 && g.n == g.hold {
+		hit := g.hold != 0 && g.n == g.hold
+		if g.match != nil {
+			hit = !g.held && fok && g.match(ftype, fsid)
+		}
+		if hit {
+			g.held = true
 			g.holding = true
 			g.mu.Unlock()
 			t := time.NewTimer(h2wHoldTimeout)
@@ -72,7 +94,7 @@ func (g *h2wGate) Write(bufs ...buffer.IoBuffer) error {
 			g.raw = append(g.raw, b.Bytes()...)
 		}
 	}
-	if g.holding {
+	if g.holding && (g.match == nil || (fok && ftype == 1)) {
 		g.over++
 		select {
 		case g.pass <- struct{}{}:
@@ -106,6 +128,15 @@ type h2wMsg struct {
 	path   string // cli
 	hdr    [][2]string
 	big    bool
+	trl    *h2wOpen // clt: this block is the trailers of an open stream (id = its nominal id + 1)
+}
+
+// h2wOpen is a client stream whose request headers went out without END_STREAM: body and trailers follow.
+type h2wOpen struct {
+	nominal uint32
+	hdr     [][2]string
+	data    []byte
+	ms      *mh2.MClientStream
 }
 
 func h2wField(name, value string) string {
@@ -133,7 +164,9 @@ func h2wFields(fs [][2]string) string {
 // expected: what a correct peer decodes for the block (names lower-cased; the fields MOSN adds itself included).
 func (m *h2wMsg) expected(side string) string {
 	var fs [][2]string
-	if side == "srv" {
+	if m.trl != nil {
+		// encodeTrailers: the trailer fields, names lower-cased, nothing added
+	} else if side == "srv" {
 		// MStream.WriteHeader: no body => content-length 0; Date is present in the header set => not generated
 		fs = append(fs, [2]string{":status", strconv.Itoa(m.status)}, [2]string{"content-length", "0"}, [2]string{"date", "x"})
 	} else {
@@ -188,6 +221,8 @@ type h2wPlan struct {
 	group []*h2wMsg // in stream-id order
 	start []int     // indices into group: the order the goroutines are launched in
 	cont  bool
+	open  []*h2wOpen // clt
+	repeat string    // clt: whether some trailers repeat a pair the concurrent request headers insert
 }
 
 func h2wShuffle(r *hx.Rng, xs []int) {
@@ -426,6 +461,169 @@ func h2wRunCli(p *h2wPlan) (raw []byte, actual map[uint32]uint32) {
 	return raw, actual
 }
 
+// h2wGenClt: client side, request HEADERS of new streams racing with the TRAILERS of streams that are already open (both
+// use the connection's one HPACK encoder). Nominal ids: warm-up requests, then the open streams, then the new requests;
+// the trailers of the open stream with nominal id n are block n+1.
+func h2wGenClt(r *hx.Rng) *h2wPlan {
+	p := &h2wPlan{side: "clt", repeat: "no"}
+	switch x := r.Intn(10); {
+	case x < 1:
+		p.mode = "none"
+	case x < 7:
+		p.mode = "holdh" // the first request HEADERS frame of the group is held
+	default:
+		p.mode = "holdt" // the first trailers HEADERS frame is held
+	}
+	w, na, nb := 1+r.Intn(2), 1+r.Intn(2), 1+r.Intn(2)
+	id := uint32(1)
+	for j := 0; j < w; j++ {
+		m := &h2wMsg{id: id, method: "GET", path: "/warm"}
+		if j == 0 {
+			nf := 4 + r.Intn(5)
+			for i := 0; i < nf; i++ {
+				m.hdr = append(m.hdr, [2]string{fmt.Sprintf("A-F%d", i), fmt.Sprintf("filler-%d-%s", i, h2wText(r, 2+r.Intn(6)))})
+			}
+			m.hdr = append(m.hdr, h2wPool...)
+		} else {
+			m.hdr = append(m.hdr, [2]string{fmt.Sprintf("X-W%d", id), fmt.Sprintf("w%d.%s", id, h2wText(r, 4+r.Intn(8)))})
+		}
+		p.warm = append(p.warm, m)
+		id += 2
+	}
+	for j := 0; j < na; j++ {
+		o := &h2wOpen{nominal: id}
+		for _, kv := range h2wPool {
+			if r.Chance(40) {
+				o.hdr = append(o.hdr, kv)
+			}
+		}
+		o.hdr = append(o.hdr, [2]string{fmt.Sprintf("X-O%d", id), fmt.Sprintf("o%d.%s", id, h2wText(r, 4+r.Intn(8)))})
+		if r.Bool() {
+			o.data = []byte(h2wText(r, 1+r.Intn(200)))
+		}
+		p.open = append(p.open, o)
+		id += 2
+	}
+	var reqs []*h2wMsg
+	for j := 0; j < nb; j++ {
+		m := &h2wMsg{id: id, method: r.PickS(h2wMethods), path: fmt.Sprintf("/r%d/%s", id, h2wText(r, 1+r.Intn(6)))}
+		pi := []int{0, 1, 2, 3, 4, 5}
+		h2wShuffle(r, pi)
+		for _, x := range pi[:r.Intn(3)] {
+			m.hdr = append(m.hdr, h2wPool[x])
+		}
+		// new pairs: inserted into the dynamic table by this block; the first one is what trailers repeat
+		m.hdr = append(m.hdr, [2]string{fmt.Sprintf("X-Checksum-%d", id), fmt.Sprintf("c%d.%s", id, h2wText(r, 6+r.Intn(10)))})
+		for i, nu := 0, r.Intn(3); i < nu; i++ {
+			m.hdr = append(m.hdr, [2]string{fmt.Sprintf("X-U%d-%d", id, i), fmt.Sprintf("r%d.%s", id, h2wText(r, 3+r.Intn(20)))})
+		}
+		reqs = append(reqs, m)
+		id += 2
+	}
+	for _, o := range p.open {
+		m := &h2wMsg{id: o.nominal + 1, trl: o}
+		if r.Chance(80) { // the pair a concurrent request block has just put into the table (or is about to)
+			src := reqs[r.Intn(len(reqs))]
+			for _, kv := range src.hdr {
+				if strings.HasPrefix(kv[0], "X-Checksum-") {
+					m.hdr = append(m.hdr, kv)
+				}
+			}
+			p.repeat = "yes"
+		}
+		for _, kv := range h2wPool {
+			if r.Chance(25) {
+				m.hdr = append(m.hdr, kv)
+			}
+		}
+		for i, nu := 0, 1+r.Intn(2); i < nu; i++ {
+			m.hdr = append(m.hdr, [2]string{fmt.Sprintf("X-T%d-%d", o.nominal, i), fmt.Sprintf("t%d.%s", o.nominal, h2wText(r, 3+r.Intn(12)))})
+		}
+		p.group = append(p.group, m)
+	}
+	p.group = append(p.group, reqs...)
+	sort.Slice(p.group, func(i, j int) bool { return p.group[i].id < p.group[j].id })
+	if r.Chance(15) { // one block that needs CONTINUATION frames
+		m := p.group[r.Intn(len(p.group))]
+		m.big, p.cont = true, true
+		m.hdr = append(m.hdr, [2]string{fmt.Sprintf("X-B%d", m.id), fmt.Sprintf("b%d.%s", m.id, h2wText(r, 20000+r.Intn(20001)))})
+	}
+	p.start = make([]int, len(p.group))
+	for i := range p.start {
+		p.start[i] = i
+	}
+	h2wShuffle(r, p.start)
+	return p
+}
+
+// h2wRunClt: one MClientConn; warm-up requests and the headers of the open streams one after the other, then at the
+// same time: the requests of the group (MClientConn.WriteHeaders) and body + trailers of the open streams
+// (MClientStream.RoundTrip's second call = writeDataAndTrailer).
+func h2wRunClt(p *h2wPlan) (raw []byte, actual map[uint32]uint32) {
+	g := h2wNewGate()
+	cc := mh2.NewClientConn(g)
+	cc.WriteInitFrame()
+	ctx := context.Background()
+	actual = map[uint32]uint32{}
+	var amu sync.Mutex
+	mkReq := func(method, path string, hdr [][2]string) *http.Request {
+		h := http.Header{}
+		for _, kv := range hdr {
+			h[kv[0]] = append(h[kv[0]], kv[1])
+		}
+		h["User-Agent"] = []string{"h2w"}
+		return &http.Request{Method: method, URL: &url.URL{Scheme: "http", Host: "peer", Path: path}, Host: "peer", Header: h}
+	}
+	send := func(m *h2wMsg) {
+		cs, err := cc.WriteHeaders(ctx, mkReq(m.method, m.path, m.hdr), "", true)
+		if err != nil || cs == nil {
+			panic(fmt.Sprint("h2w: WriteHeaders: ", err))
+		}
+		amu.Lock()
+		actual[cs.ID] = m.id
+		amu.Unlock()
+	}
+	for _, m := range p.warm {
+		send(m)
+	}
+	openSid := map[uint32]bool{}
+	for _, o := range p.open {
+		ms := mh2.NewMClientStream(cc, mkReq("POST", fmt.Sprintf("/open/%d", o.nominal), o.hdr))
+		ms.SendData = buffer.NewIoBufferBytes(append([]byte(nil), o.data...))
+		tr := http.Header{}
+		ms.Trailer = &tr
+		if err := ms.RoundTrip(ctx); err != nil {
+			panic(fmt.Sprint("h2w: RoundTrip (headers): ", err))
+		}
+		o.ms = ms
+		actual[ms.GetID()] = o.nominal
+		openSid[ms.GetID()] = true
+	}
+	switch p.mode {
+	case "holdh":
+		g.match = func(ftype byte, sid uint32) bool { return ftype == 1 && !openSid[sid] }
+	case "holdt":
+		g.match = func(ftype byte, sid uint32) bool { return ftype == 1 && openSid[sid] }
+	}
+	h2wConcurrent(p, g, func(j int) {
+		m := p.group[j]
+		if m.trl == nil {
+			send(m)
+			return
+		}
+		tr := http.Header{}
+		for _, kv := range m.hdr {
+			tr[kv[0]] = append(tr[kv[0]], kv[1])
+		}
+		m.trl.ms.Trailer = &tr
+		if err := m.trl.ms.RoundTrip(ctx); err != nil {
+			panic(fmt.Sprint("h2w: RoundTrip (trailers): ", err))
+		}
+	})
+	raw, _ = g.snapshot()
+	return raw, actual
+}
+
 type h2wDecoded struct {
 	order       []uint32               // stream ids in the order of their HEADERS frames
 	done        map[uint32][][2]string // completed blocks
@@ -447,8 +645,11 @@ func h2wDecode(raw []byte) *h2wDecoded {
 	dec := xhpack.NewDecoder(4096, func(f xhpack.HeaderField) {
 		cur[feeding] = append(cur[feeding], [2]string{f.Name, f.Value})
 	})
-	var open uint32 // stream whose header block is open (0: none)
+	var open uint32    // stream whose header block is open (0: none)
+	var openKey uint32 // its block key
+	seen := map[uint32]bool{}
 	feed := func(sid uint32, frag []byte, end bool) {
+		openKey = sid
 		if d.hpackErr {
 			d.failed[sid] = true
 		} else {
@@ -494,13 +695,22 @@ func h2wDecode(raw []byte) *h2wDecoded {
 			if open != 0 {
 				d.interleaved = true
 			}
-			d.order = append(d.order, f.StreamID)
-			feed(f.StreamID, f.HeaderBlockFragment(), f.HeadersEnded())
+			key := f.StreamID
+			if seen[key] { // a second header block on the stream: its trailers
+				key |= h2wTrailerBit
+			}
+			seen[key] = true
+			d.order = append(d.order, key)
+			feed(key, f.HeaderBlockFragment(), f.HeadersEnded())
 		case *xh2.ContinuationFrame:
-			if open == 0 || open != f.StreamID {
+			if open == 0 || open&^h2wTrailerBit != f.StreamID {
 				d.interleaved = true
 			}
-			feed(f.StreamID, f.HeaderBlockFragment(), f.HeadersEnded())
+			key := f.StreamID
+			if open != 0 {
+				key = openKey
+			}
+			feed(key, f.HeaderBlockFragment(), f.HeadersEnded())
 		default:
 			if open != 0 {
 				d.interleaved = true
@@ -518,9 +728,12 @@ func h2wImpl(p *h2wPlan, raw []byte, actual map[uint32]uint32) string {
 	// name maps a stream id on the wire to the id the case line uses (srv: the same; cli: the nominal id)
 	name := func(sid uint32) (uint32, bool) {
 		if actual == nil {
-			return sid, true
+			return sid, sid&h2wTrailerBit == 0
 		}
-		n, ok := actual[sid]
+		n, ok := actual[sid&^h2wTrailerBit]
+		if sid&h2wTrailerBit != 0 {
+			n++
+		}
 		return n, ok
 	}
 	inGroup := map[uint32]bool{}
@@ -530,6 +743,9 @@ func h2wImpl(p *h2wPlan, raw []byte, actual map[uint32]uint32) string {
 	isWarm := map[uint32]bool{}
 	for _, m := range p.warm {
 		isWarm[m.id] = true
+	}
+	for _, o := range p.open {
+		isWarm[o.nominal] = true
 	}
 	var order []string
 	res := map[uint32]string{}
@@ -578,10 +794,18 @@ func h2wImpl(p *h2wPlan, raw []byte, actual map[uint32]uint32) string {
 }
 
 func h2wCase(c *hx.Ctx, r *hx.Rng, side string) {
-	p := h2wGen(r, side)
+	var p *h2wPlan
+	if side == "clt" {
+		p = h2wGenClt(r)
+	} else {
+		p = h2wGen(r, side)
+	}
 	impl := ""
 	if msg, bad := hx.Safe(func() {
-		if side == "srv" {
+		if side == "clt" {
+			raw, actual := h2wRunClt(p)
+			impl = h2wImpl(p, raw, actual)
+		} else if side == "srv" {
 			impl = h2wImpl(p, h2wRunSrv(p), nil)
 		} else {
 			raw, actual := h2wRunCli(p)
@@ -599,9 +823,13 @@ func h2wCase(c *hx.Ctx, r *hx.Rng, side string) {
 	if p.cont {
 		c.Count("h2w.cont")
 	}
+	if side == "clt" {
+		c.Count(fmt.Sprintf("h2w.clt.trailers=%d", len(p.open)))
+		c.Count("h2w.clt.repeat=" + p.repeat)
+	}
 }
 
-// h2wCases: quick 60 srv + 30 cli cases (a held write costs 30 ms on correct code).
+// h2wCases: quick 60 srv + 30 cli + 40 clt cases (a held write costs 30 ms on correct code).
 func h2wCases(c *hx.Ctx) {
 	rng := hx.NewRng(c.Seed ^ 0x683277c02)
 	for i := 0; i < c.N(60, 600); i++ {
@@ -609,5 +837,8 @@ func h2wCases(c *hx.Ctx) {
 	}
 	for i := 0; i < c.N(30, 300); i++ {
 		h2wCase(c, rng.Fork(), "cli")
+	}
+	for i := 0; i < c.N(40, 400); i++ {
+		h2wCase(c, rng.Fork(), "clt")
 	}
 }
